@@ -87,6 +87,31 @@ def run_drive(backend, prop, tier, block=None, threads=None, timeout=None):
     return doc
 
 
+def purity_scan():
+    """Textual scan of the library sources for places where state could be carried between calls (statics, thread-locals,
+    atomics, cells, locks).  Not a verdict: the result qualifies the assumption under which one evaluation per input
+    covers every history and schedule; the depth-2 histories (props/history.rs) explore the assumption itself."""
+    import re
+    pat = re.compile(r"\bstatic\s+(mut\s+)?[A-Z_]|thread_local!|\bAtomic[A-Z]\w*|\b(Ref)?Cell\b|\bUnsafeCell\b|\bMutex\b|\bRwLock\b|\bOnce(Cell|Lock)?\b|lazy_static")
+    hits, files = [], 0
+    for root in ("src", "qty-macros/src", "astronimical_quantities/src"):
+        for dp, _dn, fn in os.walk(os.path.join(REPO, root)):
+            for f in sorted(fn):
+                if not f.endswith(".rs"):
+                    continue
+                files += 1
+                path = os.path.join(dp, f)
+                with open(path, encoding="utf-8") as fh:
+                    for no, line in enumerate(fh, 1):
+                        code = line.split("//")[0]
+                        if pat.search(code):
+                            hits.append("%s:%d: %s" % (os.path.relpath(path, REPO), no, line.strip()[:100]))
+    if hits:
+        return ("state-bearing items in the library sources (%d files scanned): %s - one evaluation per input no longer covers every "
+                "history / schedule by construction; the depth-2 histories and the concurrent block schedule are the guard" % (files, "; ".join(hits[:8])))
+    return "no static / thread-local / atomic / cell / lock item in the %d library source files: results are functions of their arguments (explored further by the depth-2 histories)" % files
+
+
 # ---------------------------------------------------------------------------
 def load_known():
     path = os.path.join(VERIF, "known_findings.json")
